@@ -887,7 +887,7 @@ func emitDebsig(g *core.G, data []byte, role string, kr []*openpgp.Entity) {
 func streamDebsig(g *core.G) {
 	r := g.R
 	ks := testKeys()
-	n := g.N(60, 1000)
+	n := g.N(60, 320)
 	for i := 0; i < n; i++ {
 		m := genDebModel(r)
 		m.CtlExt, m.DataExt = r.Pick([]string{"", ".gz"}), r.Pick([]string{"", ".gz", ".xz"})
